@@ -57,6 +57,26 @@ structure Uri where
   host : Option String
   deriving DecidableEq, Repr
 
+/-- One statement of a caller's program that sets up SEVERAL configurations and endpoints in one
+process (`ClientTlsConfig` and `Endpoint` are `Clone`; builder methods and `Endpoint::tls_config`
+consume `self`, so a value that is used more than once is used through clones).  Configurations
+and endpoints live in numbered variables `c0, c1, …` / `e0, e1, …`, numbered in the order the
+statements that define them appear. -/
+inductive Stmt (Root Chain : Type)
+  /-- `let cN = ClientTlsConfig::new().<ops>;` (`src = none`) or `let cN = cK.clone().<ops>;` -/
+  | config (src : Option Nat) (ops : List (ClientOp Root Chain))
+  /-- `let eN = Endpoint::from_shared(uri);` -/
+  | endpoint (uri : Uri)
+  /-- `let eN = Endpoint::new(uri);` (what generated `connect` functions call) -/
+  | endpointNew (uri : Uri)
+  /-- `let eN = eK.clone();` -/
+  | cloneEndpoint (e : Nat)
+  /-- `let eN = eK.clone().tls_config(cJ.clone());` -/
+  | tlsConfig (e c : Nat)
+  /-- `eK.connect…(..)` and a call over the channel (`&self`: defines no variable) -/
+  | connect (e : Nat)
+  deriving Repr
+
 /-- Build features and ambient state outside the caller's configuration. -/
 structure Sys (Root : Type) where
   featNative : Bool
